@@ -186,6 +186,13 @@ class GhostPos(object):
                     self.ptrvars.add(d)
             elif vd.get("tw"):
                 self.intvars.add(d)
+        # link pointers (item **link = &self->head; link = &(*link)->next): p<link> is the position of the node *link leads to
+        self.linkvars = set()
+        for d, vd in fn.vardecls.items():
+            t_ = (vd.get("tc") or vd.get("t") or "")
+            if vd.get("tp") and re.search(r"item", t_) and (re.search(r"\*\s*\*\s*$", vd.get("tc") or "") or re.search(r"_item_t\s*\*\s*$", vd.get("t") or "")):
+                self.linkvars.add(d)
+        self.ptrvars -= self.linkvars
         self.fresh_nodes = set()      # locals assigned from *_item_new(): not part of the chain until linked
         assigns = []
         for x in walk(fn.body):
@@ -236,7 +243,7 @@ class GhostPos(object):
                         self.ptrvars.add(d)
                         changed = True
         self.linked_fresh = linked
-        self.foreign = cand - self.ptrvars
+        self.foreign = cand - self.ptrvars - self.linkvars
         self.mutators = mutators or {}
         self.pure = pure or set()
         self.ins = None
@@ -300,6 +307,10 @@ class GhostPos(object):
             return None
         if s.get("k") == "ref" and s.get("d") in self.ptrvars:
             return Lin.sym("p%d" % s["d"])
+        if s.get("k") == "un" and s.get("op") == "*":
+            t_ = X.strip(s["ch"][0])
+            if t_ is not None and t_.get("k") == "ref" and t_.get("d") in self.linkvars:
+                return Lin.sym("p%d" % t_["d"])
         f = self.self_field(s)
         if f == "head":
             return Lin.const(0)
@@ -359,7 +370,7 @@ class GhostPos(object):
 
     def havoc_ptrs(self, cons, keep=None):
         out = cons
-        for d in sorted(self.ptrvars):
+        for d in sorted(self.ptrvars | self.linkvars):
             s = "p%d" % d
             if s != keep and any(c.coef(s) for c in out):
                 out = project(out, s)
@@ -400,6 +411,22 @@ class GhostPos(object):
                 if op in ("+=", "-=") and r is not None:
                     return self.assign_sym(cons, sym, Lin.sym(sym) + r if op == "+=" else Lin.sym(sym) - r)
                 return self.assign_sym(cons, sym, None)
+            if l.get("k") == "ref" and l.get("d") in self.linkvars and op == "=":
+                r_ = X.strip(n["ch"][1])
+                val = None
+                if r_ is not None and r_.get("k") == "un" and r_.get("op") == "&":
+                    val = self.pos(r_["ch"][0])
+                elif r_ is not None and r_.get("k") == "ref" and r_.get("d") in self.linkvars:
+                    val = Lin.sym("p%d" % r_["d"])
+                return self.assign_sym(cons, "p%d" % l["d"], val)
+            if l.get("k") == "un" and l.get("op") == "*" and (X.strip(l["ch"][0]) or {}).get("d") in self.linkvars and op == "=":
+                # *link = E re-links the chain at that place: ghost positions of the other pointers are forgotten
+                keep_ = "p%d" % X.strip(l["ch"][0])["d"]
+                out = self.havoc_ptrs(cons, None)
+                for d_ in sorted(self.linkvars):
+                    if "p%d" % d_ != keep_ and any(c.coef("p%d" % d_) for c in out):
+                        out = frozenset(project(out, "p%d" % d_))
+                return out
             if l.get("k") == "ref" and l.get("d") in self.ptrvars and op == "=":
                 nn = self.known_nonnull(cons, n["ch"][1])
                 out = self.assign_sym(cons, "p%d" % l["d"], self.pos(n["ch"][1]))
@@ -517,6 +544,13 @@ class GhostPos(object):
         if s.get("k") == "ref" and s.get("d") in self.unknown_ptrs:
             # the outcome depends on what an unmodelled callee returned: whatever is concluded under this test is undecided
             return [Lin.sym("unk") - 1] + ([Lin.sym("n%d" % s["d"]) - 1] if not isnull else [])
+        if s.get("k") == "un" and s.get("op") == "*" and (X.strip(s["ch"][0]) or {}).get("d") in self.linkvars:
+            p = Lin.sym("p%d" % X.strip(s["ch"][0])["d"])
+            if not isnull:
+                return [p, L - 1 - p]
+            if entails(cons, p):
+                return [p - L, L - p]       # reached by following next links from the head: NULL means one past the last node
+            return []
         if s.get("k") == "ref" and s.get("d") in self.ptrvars:
             p = Lin.sym("p%d" % s["d"])
             if not isnull:
@@ -558,6 +592,11 @@ class GhostPos(object):
             if tv is not None and fv is not None and bool(tv) != bool(fv):
                 return self.refine(cons, c["ch"][0], truth if tv else not truth)
             return cons
+        if k == "call" and X.callee_name(c) and self.prog is not None and self.prog.fn(X.callee_name(c)) is not None \
+                and X.callee_name(c) not in self.pure and any((X.strip(a) or {}).get("d") in self.ptrvars for a in c["ch"][1:]):
+            # the verdict of a program function that was handed a node pointer (detach(self, node, &out)): whatever is concluded
+            # under this test depends on code this analysis has no model of
+            return self._add(cons, [Lin.sym("unk") - 1])
         if k == "bin" and c.get("op") in ("&&", "||"):
             both = (c["op"] == "&&") == truth
             if both:
@@ -787,7 +826,29 @@ class GhostPos(object):
         res = []
         for b, blk in cfg.blocks.items():
             if node_id in blk.el and b in self.ins:
-                srcs = [o for k, o in self.edge_out.items() if k[2] == b]
+                srcs = []
+                for k, o in self.edge_out.items():
+                    if k[2] != b:
+                        continue
+                    # an edge decided by a compound condition (`!(a && b)`): its cases separately instead of the one
+                    # conjunction refine() can keep
+                    done_ = False
+                    if k[0] in self.ins:
+                        es = cfg.edges(k[0])
+                        if k[1] < len(es) and es[k[1]][1] is not None and not isinstance(es[k[1]][2], tuple):
+                            c_ = X.strip(es[k[1]][1])
+                            while c_ is not None and c_.get("k") == "un" and c_.get("op") == "!":
+                                c_ = X.strip(c_["ch"][0])
+                            if c_ is not None and c_.get("k") == "bin" and c_.get("op") in ("&&", "||"):
+                                st0 = self.ins[k[0]]
+                                for e in cfg.blocks[k[0]].el:
+                                    n0 = self.fn.nodes.get(e)
+                                    if n0 is not None:
+                                        st0 = self.transfer(st0, n0, cfg.blocks[k[0]])
+                                srcs.extend(self.refine_dnf(st0, es[k[1]][1], es[k[1]][2]))
+                                done_ = True
+                    if not done_:
+                        srcs.append(o)
                 if b == cfg.entry or not srcs:
                     srcs = [self.ins[b]]
                 for st in srcs:
